@@ -31,6 +31,10 @@ VH_DRIVER(tostring){
   if(!RT.load(arg_value(argc,argv,"--table","build/recognizer.tbl"))) return 2;
   long want=atol(arg_value(argc,argv,"--n",g.thorough?"6000":"260")); Rng R(g.seed); Guarded ar(1<<16); long n=0;
   std::vector<Text> texts=corpus_uris(R,g.thorough,(size_t)want);
+  // one URI per "what the text ends with" x host kind: every bounds check of the recomposition is the LAST one for some URI here
+  for(const char*h:{"h","1.2.3.4","255.255.255.255","[::1]","[1:2:3:4:5:6:7:8]","[v1.a]",""}) for(const char*tail:{"",":",":80","/","/a","/a/","/a/b","?","?q","#","#f","/a?q#f"}) for(const char*ui:{"","u@","@"}){
+    std::string s=std::string("s://")+ui+h+tail; texts.push_back(T(s.c_str())); }
+  for(const char*s:{"s:","s:a","s:/","s:/a","a","/","/a","a/b","?q","#f","s:?","s:#","./a:b","/.//a","s:/.//a"}) texts.push_back(T(s));
   for(const char*s:{"//[::1]","//[1:2:3:4:5:6:7:8]:1","s://u@[::ffff:1.2.3.4]:80/p?q#f","//255.255.255.255","//0.10.100.9:","s://u:p@h:1/a/b?q#f","//[v1.a]","","/","#","?"}) texts.push_back(T(s));
   for(size_t i=0;i<texts.size();++i){ const Text&t=texts[i];
     if(g.pair){ int variant=(int)(i%3); long na=0,nw=0; AW(true,true,[&]{ tostring_text<ApiA>(t,variant,ar,na); },[&]{ tostring_text<ApiW>(t,variant,ar,nw); }); n+=na; continue; }
